@@ -279,6 +279,12 @@ def run(seed, tier, extra_cases=None, use_cache=True):
             allrecs = pool.map(_norm_one, range(len(cs)), chunksize=64)
     else:
         allrecs = [_norm_one(i) for i in range(len(cs))]
+    # the recorded swc trees are only needed for normalisation: let go of them (thorough runs hold ~100 000 responses)
+    _NORM_JOB = None
+    for rs in resps:
+        for k in ("in_ast", "out_ast", "events", "out_comments", "raw"):
+            if isinstance(rs, dict):
+                rs.pop(k, None)
     for i, (c, rq, rs) in enumerate(zip(cs, reqs, resps)):
         rid = "r%d" % i
         outcomes[rs.get("outcome", "abort")] = outcomes.get(rs.get("outcome", "abort"), 0) + 1
